@@ -318,9 +318,8 @@ class MolQueryReader(object):
                 molquery.AppendAtomConstraint(constraint, idx)
 
         assert tree[1][0].name == 'AtomLabel'
-        if tree[1][0].name in molquery.atom_names:
-            raise RINGReaderError('Atom Label ' + tree[1][0]
-                                  + ' is alreadyd declared!')
+        # A label may be declared again (the shipped schemes do); references
+        # resolve to the first declaration.
         molquery.atom_names.append(tree[1][1])
         assert tree[2][0].name == 'BondType'
         bondtype = tree[2][1:][0]
